@@ -50,7 +50,7 @@ def dict_lines(schema, abstract=()):
     for e in schema.entities:
         L.append(f"E {e.name.upper()} {1 if e.name in abstract else 0} {','.join(ancestors(schema, e.name))}")
         for a in schema.all_attrs(e.name):
-            der = 1 if getattr(a, "derived_in", None) and e.name in a.derived_in else 0
+            der = 1 if a.name in getattr(schema, "derived", {}).get(e.name, ()) else 0
             L.append(f"A {a.name} {1 if a.optional else 0} {der} 0 {1 if a.owner == e.name else 0} {attr_ty(a)}")
     L.append(f"S SEL_E {t[0]}=ent:{t[0]} {t[1]}=ent:{t[1]}")
     L.append("S SEL_T LEN_T=real CNT_T=int")
@@ -232,16 +232,22 @@ def _respell_val(rng, kind, v, p):
 
 # ------------------------------------------------------------------ C03: single violations of a conforming population
 ABSTRACT_EXPRESS = ("ENTITY abs_e\n  ABSTRACT SUPERTYPE OF (ONEOF (abs_s));\n  abs_i : INTEGER;\nEND_ENTITY;\n\n"
-                    "ENTITY abs_s\n  SUBTYPE OF (abs_e);\nEND_ENTITY;\n\n")
+                    "ENTITY abs_s\n  SUBTYPE OF (abs_e);\nEND_ENTITY;\n\n"
+                    "ENTITY d_sup\n  SUPERTYPE OF (ONEOF (d_sub));\n  d_a : INTEGER;\n  d_b : REAL;\nEND_ENTITY;\n\n"
+                    "ENTITY d_sub\n  SUBTYPE OF (d_sup);\n  d_c : OPTIONAL STRING;\nDERIVE\n  SELF\\d_sup.d_a : INTEGER := 1;\nEND_ENTITY;\n\n")
 
 
 class SchemaX(G.Schema):
-    """a p21_gen schema plus one abstract supertype `abs_e` with a concrete subtype `abs_s`"""
+    """a p21_gen schema plus an abstract supertype `abs_e` (concrete subtype `abs_s`) and a subtype `d_sub` that
+    derives the attribute `d_a` it inherits from `d_sup` (written `*` in an exchange file)"""
     def __init__(self, base):
         ents = list(base.entities) + [G.Entity("abs_e", None, [G.Attr("abs_i", "INTEGER", False)]),
-                                      G.Entity("abs_s", "abs_e", [])]
+                                      G.Entity("abs_s", "abs_e", []),
+                                      G.Entity("d_sup", None, [G.Attr("d_a", "INTEGER", False), G.Attr("d_b", "REAL", False)]),
+                                      G.Entity("d_sub", "d_sup", [G.Attr("d_c", "STRING", True)])]
         G.Schema.__init__(self, base.name, ents, base.targets)
         self.abstract = ("abs_e",)
+        self.derived = {"d_sub": {"d_a"}}
 
     def express(self):
         t = G.Schema.express(self)
@@ -251,6 +257,24 @@ class SchemaX(G.Schema):
 
     def simple_instantiable(self):
         return [e.name for e in self.entities if e.name != "abs_e"]
+
+
+def fix_derived(schema, pop):
+    """a derived attribute stands as `*` in a conforming file"""
+    der = getattr(schema, "derived", {})
+    out = []
+    for inst in pop:
+        parts = []
+        for pi, (n, vs) in enumerate(inst.parts):
+            names = der.get(n.lower(), ())
+            attrs = G.part_attrs(schema, inst, pi)
+            parts.append((n, [("derived",) if a.name in names else v for a, v in zip(attrs, vs)]))
+        out.append(G.Inst(inst.id, parts))
+    return out
+
+
+def gen_population(rng, schema, n, **kw):
+    return fix_derived(schema, G.gen_population(rng, schema, n, **kw))
 
 
 WRONG_KIND = {   # attribute kind -> literals of *another* kind
@@ -313,7 +337,7 @@ def violations(rng, schema, pop, per_class=1):
         for ii, inst in enumerate(pop):
             for pi, (n, vs) in enumerate(inst.parts):
                 for ai, (a, v) in enumerate(zip(G.part_attrs(schema, inst, pi), vs)):
-                    if pred(a, v, inst):
+                    if v[0] != "derived" and pred(a, v, inst):
                         ps.append((ii, pi, ai, a))
         rng.shuffle(ps)
         return ps[:per_class]
@@ -347,6 +371,13 @@ def violations(rng, schema, pop, per_class=1):
     # `*` where no attribute is derived
     for (ii, pi, ai, a) in positions(lambda a, v, i: True):
         out.append(Violation("star_not_derived", pop[ii].id, replaced(ii, _set_val(pop[ii], pi, ai, ("derived",))),
+                             where(pop[ii], pi, ai, a)))
+    # a value where the attribute is derived
+    dpos = [(ii, pi, ai, a) for ii, inst in enumerate(pop) for pi, (n, vs) in enumerate(inst.parts)
+            for ai, (a, v) in enumerate(zip(G.part_attrs(schema, inst, pi), vs)) if v[0] == "derived"]
+    rng.shuffle(dpos)
+    for (ii, pi, ai, a) in dpos[:per_class]:
+        out.append(Violation("value_where_derived", pop[ii].id, replaced(ii, _set_val(pop[ii], pi, ai, ("tok", "5"))),
                              where(pop[ii], pi, ai, a)))
     # missing required aggregate
     for (ii, pi, ai, a) in positions(lambda a, v, i: a.kind.startswith("AGG") and not a.optional):
